@@ -268,9 +268,10 @@ class MsgGen:
     elements nested to the schema's depth, every element with its position-1 field, random
     insertion order."""
 
-    def __init__(self, meta, rng, p_opt=0.3, max_elems=3, shuffle=True, p_nodelim=0.0):
+    def __init__(self, meta, rng, p_opt=0.3, max_elems=3, shuffle=True, p_nodelim=0.0, no_pairs=False):
         self.meta, self.rng, self.p_opt, self.max_elems, self.shuffle = meta, rng, p_opt, max_elems, shuffle
         self.p_nodelim = p_nodelim
+        self.no_pairs = no_pairs      # leave out Length-typed fields (and so the Length/data pairing)
 
     def part(self, owner, level=0, is_elem=False, p_opt=None):
         m, rng = self.meta, self.rng
@@ -304,6 +305,11 @@ class MsgGen:
                             pairs[t.fnum] = nxt.fnum
                     elif not t.mandatory:
                         chosen.pop(t.fnum, None)
+        if self.no_pairs and not is_elem:
+            for t in ts:
+                if t.ftype == FT_LENGTH and t.fnum != 9 and not t.mandatory:
+                    chosen.pop(t.fnum, None)
+                    pairs.pop(t.fnum, None)
         if is_elem and first in chosen and rng.random() < self.p_nodelim:
             del chosen[first]
         vals = {}
